@@ -1,14 +1,238 @@
 /-
 Driver handlers for the address/page arithmetic properties (C03–C07).
-Each op evaluates the model (Model/Addr.lean, Model/Page.lean) and the spec oracle
-(Spec/Canon.lean) the property theorems are stated against.
+Each op evaluates the model (Model/Addr.lean, Model/Page.lean, Model/AddrProg.lean) and the
+spec oracle (Spec/Canon.lean) the property theorems are stated against.
 -/
 import X86Model.Driver.Proto
 import X86Model.Model.Page
+import X86Model.Model.AddrProg
 import X86Model.Spec.Canon
 
 namespace X86.Driver
 open X86 X86.Spec
+
+/-! ### C03 -/
+
+def unpack4 (a : Nat) : Nat × Nat × Nat × Nat := (a / 2^27 % 512, a / 2^18 % 512, a / 2^9 % 512, a % 512)
+
+/-- Decode a chain `opcode a b  opcode a b …` into a `VProg` (each op applies to the previous value;
+leaf opcodes restart the chain). Page ops go through `containing_address` first, as in the harness. -/
+def decodeV : List Nat → VProg → Option VProg
+  | [], p => some p
+  | op :: a :: b :: rest, p =>
+    let q : Option VProg :=
+      match op with
+      | 0 => some (.new a) | 1 => some (.tryNew a) | 2 => some (.newTruncate a) | 3 => some .zero
+      | 4 => some (.fromPtr a) | 5 => some (.alignUp p a) | 6 => some (.alignDown p a)
+      | 7 => some (.add p a) | 8 => some (.sub p a) | 9 => some (.stepFwd p a) | 10 => some (.stepBwd p a)
+      | 11 => some (.pageContaining a p) | 12 => some (.pageFromStart a p)
+      | 13 => some (.pageAdd a (.pageContaining a p) b) | 14 => some (.pageSub a (.pageContaining a p) b)
+      | 15 => some (.pageFwd a (.pageContaining a p) b) | 16 => some (.pageBwd a (.pageContaining a p) b)
+      | 17 => let (i4, i3, i2, i1) := unpack4 a; some (.fromIdx4K i4 i3 i2 i1)
+      | 18 => let (i4, i3, i2, _) := unpack4 a; some (.fromIdx2M i4 i3 i2)
+      | 19 => let (i4, i3, _, _) := unpack4 a; some (.fromIdx1G i4 i3)
+      | 20 => some (.handlerAddr (a % 2^16) (a / 2^16 % 2^16) (a / 2^32))
+      | _ => none
+    match q with
+    | some q => decodeV rest q
+    | none => none
+  | _, _ => none
+
+def decodeP : List Nat → PProg → Option PProg
+  | [], p => some p
+  | op :: a :: b :: rest, p =>
+    let q : Option PProg :=
+      match op with
+      | 0 => some (.new a) | 1 => some (.tryNew a) | 2 => some (.newTruncate a) | 3 => some .zero
+      | 5 => some (.alignUp p a) | 6 => some (.alignDown p a)
+      | 7 => some (.add p a) | 8 => some (.sub p a)
+      | 11 => some (.frameContaining a p) | 12 => some (.frameFromStart a p)
+      | 13 => some (.frameAdd a (.frameContaining a p) b) | 14 => some (.frameSub a (.frameContaining a p) b)
+      | 20 => some (.entryAddr a)
+      | _ => none
+    match q with
+    | some q => decodeP rest q
+    | none => none
+  | _, _ => none
+
+/-- Oracle for address-valued outputs: no value, or a valid one. -/
+def validOut (valid : Nat → Bool) (impl : List String) : Bool :=
+  match impl with
+  | ["none"] => true
+  | ["some", v] => match v.toNat? with | some n => valid n | none => false
+  | _ => false
+
+def handleC03 : Handler := fun cfg op a impl =>
+  match op, a.toList with
+  | "va_try_new", [x] =>
+    some (eqSpec (fmtOpt (VirtAddr.tryNew x)) (fmtOpt (if canon x then some x else none)) impl)
+  | "va_new_truncate", [x] =>
+    let m := VirtAddr.newTruncate x
+    some (withOracle (fmtNat m) (match impl with
+      | [v] => (match v.toNat? with
+        | some n => decide (canon n) && n % 2^48 == x % 2^48 && (!decide (canon x) || n == x)
+        | none => false)
+      | _ => false))
+  | "pa_try_new", [x] =>
+    some (eqSpec (fmtOpt (PhysAddr.tryNew x)) (fmtOpt (if physValid x then some x else none)) impl)
+  | "pa_new_truncate", [x] =>
+    some (eqSpec (fmtNat (PhysAddr.newTruncate x)) (fmtNat (x % 2^52)) impl)
+  | "vprog", args =>
+    match decodeV args .zero with
+    | some p => some (withOracle (fmtOpt (p.eval cfg)) (validOut (fun n => decide (canon n)) impl))
+    | none => none
+  | "pprog", args =>
+    match decodeP args .zero with
+    | some p => some (withOracle (fmtOpt (p.eval cfg)) (validOut (fun n => decide (physValid n)) impl))
+    | none => none
+  | _, _ => none
+
+/-! ### C04 -/
+
+def handleC04 : Handler := fun _cfg op a impl =>
+  match op, a.toList with
+  | "va_idx", [x] =>
+    let m := [VirtAddr.p4Index x, VirtAddr.p3Index x, VirtAddr.p2Index x, VirtAddr.p1Index x,
+              VirtAddr.pageOffset x, VirtAddr.pageTableIndex x 1, VirtAddr.pageTableIndex x 2,
+              VirtAddr.pageTableIndex x 3, VirtAddr.pageTableIndex x 4]
+    let s := [idxSpec 4 x, idxSpec 3 x, idxSpec 2 x, idxSpec 1 x, offSpec x,
+              idxSpec 1 x, idxSpec 2 x, idxSpec 3 x, idxSpec 4 x]
+    some (eqSpec (fmtNats m) (fmtNats s) impl)
+  | "pg_idx", [_sz, p] =>
+    let m := [Page.p4Index p, Page.p3Index p, Page.p2Index p, Page.p1Index p,
+              Page.pageTableIndex p 1, Page.pageTableIndex p 2, Page.pageTableIndex p 3, Page.pageTableIndex p 4]
+    let s := [idxSpec 4 p, idxSpec 3 p, idxSpec 2 p, idxSpec 1 p,
+              idxSpec 1 p, idxSpec 2 p, idxSpec 3 p, idxSpec 4 p]
+    some (eqSpec (fmtNats m) (fmtNats s) impl)
+  | "from_idx4k", [i4, i3, i2, i1] =>
+    some (eqSpec (fmtNat (Page.fromIndices4K i4 i3 i2 i1)) (fmtNat (unrank (ofIndices i4 i3 i2 i1))) impl)
+  | "from_idx2m", [i4, i3, i2] =>
+    some (eqSpec (fmtNat (Page.fromIndices2M i4 i3 i2)) (fmtNat (unrank (ofIndices i4 i3 i2 0))) impl)
+  | "from_idx1g", [i4, i3] =>
+    some (eqSpec (fmtNat (Page.fromIndices1G i4 i3)) (fmtNat (unrank (ofIndices i4 i3 0 0))) impl)
+  | "idx_new", [i] =>
+    some (eqSpec (fmtR (PageTableIndex.new i)) (if i < 512 then ["ok", toString i] else ["panic"]) impl)
+  | "idx_trunc", [i] =>
+    some (eqSpec (fmtNat (PageTableIndex.newTruncate i)) (fmtNat (i % 512)) impl)
+  | "off_new", [i] =>
+    some (eqSpec (fmtR (PageOffset.new i)) (if i < 4096 then ["ok", toString i] else ["panic"]) impl)
+  | "off_trunc", [i] =>
+    some (eqSpec (fmtNat (PageOffset.newTruncate i)) (fmtNat (i % 4096)) impl)
+  | "level", [l] =>
+    let m := fmtOpt (PageTableLevel.nextLower l) ++ fmtOpt (PageTableLevel.nextHigher l) ++
+      [toString (PageTableLevel.tableAlign l), toString (PageTableLevel.entryAlign l)]
+    let s := fmtOpt (if l = 1 then none else some (l - 1)) ++ fmtOpt (if l = 4 then none else some (l + 1)) ++
+      [toString (512 * entrySpan l), toString (entrySpan l)]
+    some (eqSpec m s impl)
+  | _, _ => none
+
+/-! ### C06 -/
+
+def rOk (v : Nat) : List String := ["ok", toString v]
+
+def handleC06 : Handler := fun _cfg op a impl =>
+  match op, a.toList with
+  | "align_down", [x, al] =>
+    some (eqSpec (fmtR (alignDown x al)) (if isPow2Spec al then rOk (downMultiple x al) else ["panic"]) impl)
+  | "align_up", [x, al] =>
+    some (eqSpec (fmtR (alignUp x al))
+      (if isPow2Spec al then (if upMultiple x al < 2^64 then rOk (upMultiple x al) else ["panic"]) else ["panic"]) impl)
+  | "pa_align_down", [x, al] =>
+    some (eqSpec (fmtR (PhysAddr.alignDown x al)) (if isPow2Spec al then rOk (downMultiple x al) else ["panic"]) impl)
+  | "pa_align_up", [x, al] =>
+    some (eqSpec (fmtR (PhysAddr.alignUp x al))
+      (if isPow2Spec al then (if upMultiple x al < 2^52 then rOk (upMultiple x al) else ["panic"]) else ["panic"]) impl)
+  | "va_align_down", [x, al] =>
+    let m := fmtR (VirtAddr.alignDown x al)
+    if !isPow2Spec al then some (eqSpec m ["panic"] impl)
+    else if al ≤ 2^47 then some (eqSpec m (rOk (downMultiple x al)) impl)
+    else some (withOracle m true)      -- alignments above 2^47: outside the property's statement
+  | "va_align_up", [x, al] =>
+    let m := fmtR (VirtAddr.alignUp x al)
+    if !isPow2Spec al then some (eqSpec m ["panic"] impl)
+    else if al ≤ 2^47 then
+      let u := upMultiple x al
+      some (eqSpec m (if u < 2^64 then rOk (if u = 2^47 then 2^64 - 2^47 else u) else ["panic"]) impl)
+    else some (withOracle m true)
+  | "va_is_aligned", [x, al] =>
+    let m := fmtRBool (VirtAddr.isAligned x al)
+    if !isPow2Spec al then some (eqSpec m ["panic"] impl)
+    else if al ≤ 2^47 then some (eqSpec m ["ok", if x % al = 0 then "1" else "0"] impl)
+    else some (withOracle m true)
+  | "pa_is_aligned", [x, al] =>
+    some (eqSpec (fmtRBool (PhysAddr.isAligned x al))
+      (if isPow2Spec al then ["ok", if x % al = 0 then "1" else "0"] else ["panic"]) impl)
+  | "pg_containing", [sz, x] =>
+    some (eqSpec (fmtNat (Page.containingAddress sz x)) (fmtNat (x / sz * sz)) impl)
+  | "pg_from_start", [sz, x] =>
+    some (eqSpec (fmtOpt (Page.fromStartAddress sz x)) (fmtOpt (if x % sz = 0 then some x else none)) impl)
+  | "fr_containing", [sz, x] =>
+    some (eqSpec (fmtNat (PhysFrame.containingAddress sz x)) (fmtNat (x / sz * sz)) impl)
+  | "fr_from_start", [sz, x] =>
+    some (eqSpec (fmtOpt (PhysFrame.fromStartAddress sz x)) (fmtOpt (if x % sz = 0 then some x else none)) impl)
+  | _, _ => none
+
+/-! ### C07 -/
+
+/-- exact-or-panic oracle -/
+def exactOrPanic (exact : Option Nat) (impl : List String) : Bool :=
+  match impl with
+  | ["panic"] => true
+  | ["ok", v] => (match v.toNat?, exact with | some n, some e => n == e | _, _ => false)
+  | _ => false
+
+def kindOf (k : Nat) : Option RangeKind :=
+  match k with
+  | 0 => some .page | 1 => some .pageIncl | 2 => some .frame | 3 => some .frameIncl | _ => none
+
+def fmtRangeRun (cfg : Cfg) (k : RangeKind) (sz : Nat) (r : Range) (fuel : Nat) : List String :=
+  let len := Range.len cfg k sz r
+  let size := Range.size cfg k sz r
+  let items := Range.collect k sz fuel r
+  ["len"] ++ fmtR len ++ ["size"] ++ fmtR size ++
+  (match items with
+   | none => ["items", "toolong"]
+   | some .panic => ["items", "panic"]
+   | some (.ok l) => ["items", "ok", toString l.length, toString (listHash l)])
+
+def handleC07 : Handler := fun cfg op a impl =>
+  match op, a.toList with
+  | "va_add", [x, n] => some (withOracle (fmtR (VirtAddr.add x n)) (exactOrPanic (some (x + n)) impl))
+  | "va_sub", [x, n] => some (withOracle (fmtR (VirtAddr.sub x n)) (exactOrPanic (if n ≤ x then some (x - n) else none) impl))
+  | "va_subaddr", [x, y] => some (withOracle (fmtR (VirtAddr.subAddr x y)) (exactOrPanic (if y ≤ x then some (x - y) else none) impl))
+  | "pa_add", [x, n] => some (withOracle (fmtR (PhysAddr.add x n)) (exactOrPanic (some (x + n)) impl))
+  | "pa_sub", [x, n] => some (withOracle (fmtR (PhysAddr.sub x n)) (exactOrPanic (if n ≤ x then some (x - n) else none) impl))
+  | "pa_subaddr", [x, y] => some (withOracle (fmtR (PhysAddr.subAddr x y)) (exactOrPanic (if y ≤ x then some (x - y) else none) impl))
+  | "pg_add", [sz, p, n] => some (withOracle (fmtR (Page.add sz p n)) (exactOrPanic (some (p + n * sz)) impl))
+  | "pg_sub", [sz, p, n] => some (withOracle (fmtR (Page.sub sz p n)) (exactOrPanic (if n * sz ≤ p then some (p - n * sz) else none) impl))
+  | "pg_subpg", [sz, p, q] => some (withOracle (fmtR (Page.subPage sz p q)) (exactOrPanic (if q ≤ p then some ((p - q) / sz) else none) impl))
+  | "fr_add", [sz, p, n] => some (withOracle (fmtR (PhysFrame.add sz p n)) (exactOrPanic (some (p + n * sz)) impl))
+  | "fr_sub", [sz, p, n] => some (withOracle (fmtR (PhysFrame.sub sz p n)) (exactOrPanic (if n * sz ≤ p then some (p - n * sz) else none) impl))
+  | "fr_subfr", [sz, p, q] => some (withOracle (fmtR (PhysFrame.subFrame sz p q)) (exactOrPanic (if q ≤ p then some ((p - q) / sz) else none) impl))
+  | "range", [k, sz, s, e, fuel] =>
+    match kindOf k with
+    | none => none
+    | some kind =>
+      let m := fmtRangeRun cfg kind sz { start := s, stop := e } fuel
+      let incl := (k == 1 || k == 3)
+      let virt := (k == 0 || k == 1)
+      let inDomain := if virt then decide (sameHalf s e) else decide (s < 2^52 ∧ e < 2^52)
+      let n := lenSpec incl sz s e
+      if inDomain && n < fuel then
+        let spec := ["len", "ok", toString n, "size", "ok", toString (n * sz),
+                     "items", "ok", toString n, toString (listHash (itemsSpec sz s n))]
+        some (eqSpec m spec impl)
+      else some (withOracle m true)
+  | "range4k", [s, e] =>
+    let r := Range.as4KiB { start := s, stop := e }
+    let m := [toString r.start, toString r.stop] ++ fmtR (Range.size cfg .page size2M { start := s, stop := e }) ++
+             fmtR (Range.size cfg .page size4K r)
+    let bytes := if s < e then e - s else 0
+    let spec := [toString s, toString e, "ok", toString bytes, "ok", toString bytes]
+    if decide (sameHalf s e) then some (eqSpec m spec impl) else some (withOracle m true)
+  | _, _ => none
+
+/-! ### C05 -/
 
 /-- C05: stepping. Oracle = implementation output equals the contiguous-sequence spec. -/
 def handleC05 : Handler := fun _cfg op a impl =>
